@@ -227,6 +227,24 @@ def checkToTd (args res : List String) : Except String (List String × String) :
   let M := Vata.BddAbsTD.absRulesTD symsA (Vata.BddAbsTD.getTopDownAut (Vata.BddAbs.ofRules bu.rules) bu.final)
   if f.isEmpty && !(taEq ⟨dedupRulesB M, bu.final⟩ ⟨dedupRulesB td.rules, td.final⟩) then
     f := f ++ [s!"mismatch GetTopDownAut model: {showTA ⟨M, bu.final⟩} implementation {showTA td}"]
+  -- mixed provenance (second operand loaded natively into the top-down encoding)
+  match args[1]? >>= parseTA? with
+  | some B =>
+    let tb ← getE ((kv res "tb") >>= parseTA?) "bad tb"
+    if !(← getE (equivM tb B FUEL) "fuel") then f := f ++ ["violation top-down load+dump changes the language"]
+    for key in ["i1", "i2"] do
+      let I ← getE ((kv res key) >>= parseTA?) s!"bad {key}"
+      if !(← getE (isIsectM I A B FUEL) "fuel") then
+        f := f ++ [s!"violation Intersection of a converted and a loaded top-down automaton ({key}) is not the intersection: {showTA I}"]
+    let U ← getE ((kv res "u") >>= parseTA?) "bad u"
+    if !(← getE (isUnionM U A B FUEL) "fuel") then
+      f := f ++ [s!"violation Union of a converted and a loaded top-down automaton is not the union: {showTA U}"]
+    let v ← getE (kv res "v") "missing v"
+    let e1 ← getE (inclM A B FUEL) "fuel"
+    let e2 ← getE (inclM B A FUEL) "fuel"
+    for (c, ex, what) in [(v.toList[0]!, e1, "converted ⊆ loaded"), (v.toList[1]!, e2, "loaded ⊆ converted")] do
+      if c != 'T' && c != bchar ex then f := f ++ [s!"violation top-down inclusion {what} = {c} reference={bchar ex}"]
+  | none => pure ()
   let e ← getE (emptyM A FUEL) "fuel"
   pure (f, s!"empty={bchar e} dropped={bchar ((dedupRulesB td.rules).length < (dedupRulesB bu.rules).length)}")
 
